@@ -521,8 +521,8 @@ fn check_def(p: &layout::Property<PN>, exp: &[W]) {
 }
 
 /// a one byte name "p" as a PString: length byte then the byte
-const NAME_LEN: W = W(1, 1, 1);
-const NAME_P: W = W(3, b'p' as u64, 1);
+const NAME_LEN: W = W(1, 1, [1, 0, 0, 0]);
+const NAME_P: W = W(3, 1, [b'p' as u64, 0, 0, 0]);
 
 wharness! {
     #[kani::unwind(14)]
